@@ -646,7 +646,15 @@ func checkParse(frames []frameSpec, plan adnlsrv.Plan, useCTR bool, ctrSeed uint
 	if firstBad < affected {
 		affected = firstBad
 	}
+	// Two situations in which an altered stream may legitimately parse further than the first affected
+	// frame, so that only the differential comparison above applies: a resent stretch of an unencrypted
+	// stream can be a well-formed frame again (the cipher stream is what prevents replays), and a bit
+	// flip or byte change inside the length field of a frame whose length was out of range on purpose can
+	// repair it (0 -> 64).
 	replayPossible := plan.Fault.Kind == adnlsrv.FaultDup && !useCTR
+	if fk, ff := plan.Fault.FirstAffected(layout); plan.Fault.Kind != adnlsrv.FaultNone && fk < len(frames) && frames[fk].liar && ff == adnlsrv.FieldLength {
+		replayPossible = true
+	}
 	for i, p := range got {
 		if i >= len(frames) || !bytes.Equal(p, frames[i].payload) {
 			if replayPossible {
